@@ -43,7 +43,8 @@ MAX_WITNESSES = 3
 def cells(tier):
     out = []
     backends = ['dict', 'disk', 'redis', 'cloud']
-    allk = ['none', 'reply', 'transient', 'permanent', 'other', 'mapping']
+    allk = ['none', 'reply', 'transient', 'permanent', 'other', 'oserror',
+            'mapping']
     if tier == 'quick':
         for b in backends:
             out.append({'backend': b, 'n': 2, 'rounds': 2, 'kinds': allk})
@@ -120,7 +121,8 @@ def run(cell):
     else:
         api.prove(not h['factory_calls'], 'bounce-for-null-sender', **info)
     unexpected = [e for e in h['errors']
-                  if 'unexpected relay failure' not in e['value']]
+                  if 'unexpected relay failure' not in e['value'] and
+                  'Connection refused' not in e['value']]
     api.prove(not unexpected, 'exception-escaped-queue-greenlet',
               errors=unexpected[:2], **info)
 
